@@ -34,6 +34,8 @@ mod tmerc;
 mod unitconvert;
 mod units;
 mod webmerc;
+#[cfg(feature = "verif-hooks")]
+pub(crate) mod verif;
 
 #[rustfmt::skip]
 const BUILTIN_OPERATORS: [(&str, OpConstructor); 36] = [
